@@ -366,6 +366,10 @@ class FreeEnergy(InterpolatableFunction):
                     # a singular Hessian means the minimum is about to disappear
                     logging.error(str(error) + f" at T={ode.t}")
                     break
+                if ode.y_old is None:
+                    # The starting temperature is the end of the range in this
+                    # direction: no step was taken, there is nothing to add
+                    break
                 # Field-space length of the step just taken, used below to recognise a
                 # minimiser that has left the branch being traced
                 stepLength = np.linalg.norm(ode.y - ode.y_old)
